@@ -416,3 +416,12 @@ func (p *Prog) BuildCallGraphCached() *CallGraph {
 	cgCache[p] = cg
 	return cg
 }
+
+// SingleDefOrParam reports whether obj is never reassigned in the function
+// (a parameter that is not assigned, or a local with a single definition).
+func (g *Graph) SingleDefOrParam(obj types.Object) bool {
+	if obj == nil {
+		return false
+	}
+	return g.assignCount(obj) <= 1
+}
